@@ -89,6 +89,9 @@ pub trait Universe: Sync {
     fn observe(r: &Self::Real, m: &Self::Model, model_ok: bool, cx: &mut Ctx);
     /// Release everything (order flag picks one of two orders) and run the closing check.
     fn finish(r: Self::Real, m: Self::Model, reverse: bool, cx: &mut Ctx);
+    /// The model was derailed: release every real handle without consulting it and evaluate the
+    /// model-independent invariants once more (leaks and double destruction still show).
+    fn abandon(r: Self::Real, cx: &mut Ctx);
     fn key(m: &Self::Model) -> Vec<u8>;
     fn op_str(op: &Self::Op) -> String;
     fn op_parse(s: &str) -> Option<Self::Op>;
@@ -135,7 +138,7 @@ pub fn execute<U: Universe>(history: &[U::Op], op: Option<&U::Op>, reverse_finis
     }
     if cx.derailed() {
         U::observe(&r, &m, false, &mut cx);
-        std::mem::forget(r);
+        U::abandon(r, &mut cx);
         return Outcome { key: None, model: None, mism: cx.mism, replay_broken: false };
     }
     U::observe(&r, &m, true, &mut cx);
